@@ -13,6 +13,8 @@ pub enum Phase {
     New,
     Write { odd_done: bool },
     Call { after_ver: bool, after_g1: bool },
+    /// ShmReader::new in progress (it normally runs to completion without touching the mapping)
+    Open,
 }
 
 pub struct Proc {
@@ -145,7 +147,7 @@ impl Ctl {
                     format!("?{desc}")
                 }
             }
-            Phase::Idle => format!("?{desc}"),
+            Phase::Idle | Phase::Open => format!("?{desc}"),
         }
     }
 
@@ -261,6 +263,12 @@ impl Ctl {
                         let wv: Vec<u64> = words.map(|w| self.bounds[..self.bounds.len() - 1].iter().map(|lo| w[*lo] & 0xffff_ffff).collect()).unwrap_or_default();
                         self.log(name, "RDone", None, json!({"kind": kind, "words": wv, "acc": accesses, "gl": gen_loads}));
                     }
+                    Phase::Open => {
+                        let norm = normalize_open(&what);
+                        self.oracle.r_open(name, &norm);
+                        self.procs.get_mut(name).unwrap().attached = norm == "Ok";
+                        self.log(name, "ROpen", None, json!({"res": norm}));
+                    }
                     Phase::Idle => (),
                 }
                 let _ = is_writer;
@@ -289,7 +297,10 @@ impl Ctl {
                     action = "WStartWrite".to_string();
                 }
                 Cmd::WDrop => action = "WCrash".to_string(),
-                Cmd::ROpen => action = "ROpen".to_string(),
+                Cmd::ROpen => {
+                    p.phase = Phase::Open;
+                    action = "ROpen".to_string();
+                }
                 Cmd::RCall => {
                     p.phase = Phase::Call { after_ver: false, after_g1: false };
                     p.first_loads = (None, None);
@@ -316,12 +327,9 @@ impl Ctl {
         let mut info = self.handle_msg(name, action.clone(), None, m);
         match cmd {
             Cmd::ROpen => {
-                let res = info.done.as_ref().map(|d| d.0.clone()).unwrap_or_default();
-                let norm = normalize_open(&res);
-                self.oracle.r_open(name, &norm);
-                self.procs.get_mut(name).unwrap().attached = norm == "Ok";
-                self.log(name, "ROpen", None, json!({"res": norm}));
-                info.done = Some((norm, None));
+                if let Some(d) = info.done.as_ref() {
+                    info.done = Some((normalize_open(&d.0), None));
+                }
             }
             Cmd::RCall => self.log(name, "RCall", None, json!({})),
             Cmd::WNew => self.log(name, "WRestart", None, json!({})),
@@ -342,7 +350,7 @@ impl Ctl {
         let (desc, _ord) = self.procs[name].actor.pending.clone().ok_or(format!("{name} has nothing pending"))?;
         let phase = self.procs[name].phase.clone();
         let crash = matches!(d, Directive::Crash);
-        if !crash && desc == "point:wipe.create" && self.procs.values().any(|p| p.attached) && !self.oracle.external_corruption {
+        if !crash && desc == "point:wipe.create" && self.procs.values().any(|p| p.attached || p.phase == Phase::Open) && !self.oracle.external_corruption {
             // executing File::create now would truncate the file under an attached reader (SIGBUS on its
             // next access): record it and stop this run instead
             self.oracle.violations.push(("C04".into(), "wipe-under-attached-reader".into(), "ShmWriter::new is about to truncate the segment while a reader is attached".into()));
